@@ -106,6 +106,8 @@ def run(tier: str, seed: int, replay=None) -> int:
         hists, loops = [], [replay["loop"]]
     elif replay and replay.get("case") is not None:
         hists, loops = [replay["case"]], []
+    elif replay and replay.get("roles") is not None:
+        hists, loops = [], []
     else:
         r1, r2, r3 = rng.fork(1), rng.fork(2), rng.fork(3)
         hists = c13.corpus_cases(PROP)
@@ -140,8 +142,43 @@ def run(tier: str, seed: int, replay=None) -> int:
                                               "containers did not return to baseline (rows: alive, sizes = nodes/by_id/by_class/edges/"
                                               "rel_index, growth of _id_expression_map_ and RWXNode._graph), beyond what finding C20-a predicts"})
     rep.extra["loops"] = {"cases": len(loops), "verdicts": verdicts}
+    # (c) role-taker relations: the edge (company -> role) survives while the role taker leaves
+    if replay and replay.get("roles") is not None:
+        roles = [replay["roles"]]
+    elif replay and (replay.get("case") is not None or replay.get("loop") is not None):
+        roles = []
+    else:
+        r4 = rng.fork(4)
+        roles = [{"iters": 6 if tier == "quick" else 40, "hires": r4.randint(1, 3), "mode": m, "keep_company": k}
+                 for m in ("fire", "handover") for k in (True, False)]
+    _, rres = c13.run_jobs([("roles", p) for p in roles], chunk=2, procs=8) if roles else (None, [])
+    nbad = 0
+    for p, r in zip(roles, rres):
+        rep.count("roles:" + json.dumps(p), True)
+        bad = None
+        if "fatal" in r:
+            bad = r["fatal"]
+        else:
+            for it, row in enumerate(r["rows"]):
+                if not row["inferred"]:
+                    bad = f"round {it}: the role-taker inference did not happen: {row}"
+                elif row["alive_before_sweep"] or row["alive_after_sweep"]:
+                    bad = f"round {it}: persons / role objects the program dropped are still alive: {row}"
+                elif row["nodes"] != row["live_nodes"] or row["by_id"] != row["live_nodes"]:
+                    bad = f"round {it}: after the sweep the graph / id index keep entries of reclaimed instances: {row}"
+                if bad:
+                    break
+        if bad:
+            nbad += 1
+            if nbad <= 2:
+                rep.violation({"kind": "counterexample", "roles": p, "impl": {"rows": r.get("rows", [])[:4]}, "detail": bad,
+                               "python": "import json; from harness import c13\n"
+                                         f"print(json.dumps(c13.run_roles({p!r}), indent=1))   # run with ./check's PYTHONPATH",
+                               "explanation": "ceo = CEO(person); ceo.head_of = company (inference through the role taker), then the program "
+                                              "drops the person / the role object while the company lives on: krrood must hold neither"})
+    rep.extra["roles"] = {"cases": len(roles), "failed": nbad}
     rep.extra["known_finding_instances"] = inst
     rep.samples = [{"case": h[:30]} for h in hists[-2:]] + [{"loop": p} for p in loops[:2]]
-    if not (replay and (replay.get("case") is not None or replay.get("loop") is not None)):
+    if not (replay and (replay.get("case") is not None or replay.get("loop") is not None or replay.get("roles") is not None)):
         c13.replay_findings(rep, PROP, model_ok, ACCEPT)
     return rep.finish()
